@@ -24,6 +24,7 @@ func init() {
 		{Name: "qos-order-changed", Rule: "R16.3", Where: "QoS", Edits: []Edit{{"publish.go", "\tcase p.fixed.Has(QoS3):\n\t\treturn 3 // malformed\n\tcase p.fixed.Has(QoS1):\n\t\treturn 1", "\tcase p.fixed.Has(QoS1):\n\t\treturn 1\n\tcase p.fixed.Has(QoS3):\n\t\treturn 3 // malformed"}}},
 		{Name: "undefined-drops-data", Rule: "R16.4", Where: "Undefined", Edits: []Edit{{"undefined.go", "\tp.data = make([]byte, len(data))\n\tcopy(p.data, data)\n", "\tp.data = make([]byte, len(data))\n"}}},
 		{Name: "fill-emits-flags-first", Rule: "R16.1", Where: "0x20", Edits: []Edit{{"connack.go", "\ti += p.fixed.fill(b, i)                          // firstByte header", "\ti += p.flags.fill(b, i)                          // firstByte header"}}},
+		{Name: "writeto-emits-constant-frame", Rule: "R16.5", Where: "(*PingResp).WriteTo", Edits: []Edit{{"pingresp.go", "\tb := make([]byte, p.width())\n\tp.fill(b, 0)\n\tn, err := w.Write(b)", "\tn, err := w.Write([]byte{PINGRESP, 0})"}}},
 		{Name: "switch-as-if-chain", Silent: true, Edits: []Edit{{"packet.go", "\tcase PINGREQ:\n\t\tp = &PingReq{fixed: f.fixed}\n\n\tcase PINGRESP:\n\t\tp = &PingResp{fixed: f.fixed}\n", "\tcase PINGRESP:\n\t\tp = &PingResp{fixed: f.fixed}\n\n\tcase PINGREQ:\n\t\tp = &PingReq{fixed: f.fixed}\n"}}},
 	}})
 }
@@ -68,6 +69,7 @@ func checkC16(p *Prog, c *Check) {
 	c.Rule("R16.1", "the dispatch compares (first byte & 0xF0) with exactly the 15 MQTT type codes; each arm allocates the Go type the specification assigns to that code and stores the unmasked first byte into the field that type's encoder emits first; everything else yields Undefined")
 	c.Rule("R16.2", "each constructor stores its type's code in the upper nibble of that field, with the reserved bits of the specification in the lower nibble")
 	c.Rule("R16.3", "Publish.Duplicate, QoS and Retain, as functions of that byte, are bit 3, bits 2–1 and bit 0 — on all 256 values")
+	c.Rule("R16.5", "each type's WriteTo goes through that encoder (shape rule of C10 R10.1), so the first byte written is the first byte carried")
 	c.Rule("R16.4", "Undefined.UnmarshalBinary puts a copy of its argument where Data() reads")
 	c.Explanation = "The dispatch is a finite structure: the comparison chain is extracted from the SSA form with its constants, arms and stored values and compared with the type table of MQTT v5.0 §2.1.2 carried by the checker (keyed by exported type names). The flag accessors are decision functions of one byte and are evaluated on all 256 values."
 	c.Trusted = []string{"go/types + go/ssa (x/tools v0.29.0) faithful IR", "the type-code table transcribed from MQTT v5.0 §2.1.2/§2.1.3"}
@@ -254,6 +256,27 @@ func checkC16(p *Prog, c *Check) {
 			c.OK("R16.1", "default arm", p.Pos(disp.Pos()), "every other value (type 0) yields Undefined")
 		} else {
 			c.Bad("R16.1", "default arm", p.Pos(disp.Pos()), "values outside the 15 codes do not yield Undefined (got "+def+")")
+		}
+	}
+
+	// ---- R16.5: WriteTo of every dispatched type uses the encoder examined above
+	for _, k := range codes {
+		tn := specPacketTypes[k]
+		wt := p.Method(tn, "WriteTo")
+		fill := p.Method(tn, "fill")
+		cons := "(*" + tn + ").WriteTo"
+		if wt == nil || fill == nil {
+			c.Bad("R16.5", cons, "-", "WriteTo or the encoder is missing")
+			continue
+		}
+		sc := NewCheck("C16", p)
+		used, _ := checkWriteTo(p, sc, wt)
+		if bad := sc.Failing(); len(bad) > 0 {
+			c.Bad("R16.5", cons, p.Pos(wt.Pos()), "WriteTo does not hand the writer exactly what the encoder produces: "+bad[0].Detail)
+		} else if used != fill {
+			c.Bad("R16.5", cons, p.Pos(wt.Pos()), "WriteTo does not use the type's encoder")
+		} else {
+			c.OK("R16.5", cons, p.Pos(wt.Pos()), "one Write of the buffer filled by "+qname(fill))
 		}
 	}
 
